@@ -1,9 +1,9 @@
 ---------------------------- MODULE MC_Relations ----------------------------
 (* C10 / C14 spec-level lemmas.  There is no algorithm to refine here: TLC      *)
-(* ENUMERATES the quantified space of the two relational properties as initial  *)
-(* states (one state = one point of the space) and the invariants are the       *)
-(* lemmas the trace specification relies on.  `mode` says which space a state   *)
-(* belongs to:                                                                  *)
+(* ENUMERATES the quantified space of the two relational properties (one state  *)
+(* at stage 9 = one point of the space, reached by choosing one quantified      *)
+(* variable per step) and the invariants are the lemmas the trace specification *)
+(* relies on.  `mode` says which space a state belongs to:                      *)
 (*  "relabel" every partition of NP nodes (restricted growth string c) x every   *)
 (*            injective renaming rho of its blocks into Pool; d = rho o c         *)
 (*  "pair"    every pair (c, d) of label vectors in [1..NQ -> PoolQ]             *)
@@ -32,7 +32,7 @@ Half(n) == (n + 1) \div 2
 FirstRows(S, n) == {p \in S : p[1] <= Half(n)}
 
 (* the space is spanned in stages (one quantified variable per step) so that the   *)
-(* TLC workers share the enumeration; a point is complete at stage 9            *)
+(* TLC workers share the enumeration; a point is complete at stage 9               *)
 Init == /\ mode \in Modes /\ stage = 0
         /\ c = <<>> /\ rho = <<>> /\ d = <<>> /\ e = <<>> /\ A = <<>>
 Choose1 ==
